@@ -3,7 +3,7 @@ evaluated on the real crate: P vs inject(P) (every single site, random multi-sit
 from . import core, gen, engine, engprop
 from .core import hexs
 
-THEOREMS = ["C03_inject_sem", "C03_inject_search", "C03_to_str_total"]
+THEOREMS = ["C03_inject_sem", "C03_inject_search", "C03_to_str_total", "C03_vm_split_independent"]
 BASES = ["(a|ab)(c|bcd)(d*)", "(?:(a)|b)*", "(a)\\1", "(?<=a)b", "a+?b", "(?>a|ab)c", "(?=(a|ab))\\1c", "(|a)*", "(?:a|b)*c", "x*", "(a)|b", "\\ba", "(?:ab|a)b", "(?:(a)|b){2}", "(a*)*b", "(?<!a)b|c", "^a$", "[ab]+c"]
 
 
